@@ -72,7 +72,7 @@ def validate_spec(r):
                                  for s, sz, t, d, l in es) + "]"
             lits.append(f"(encode_xtable ({el} : list xentry) ++ obs_xsem {el}, {C.zlist(c['exc'] + o['exc'])})")
         bad, errs = C.coq_cases(r.wd, "specx" + v.replace(".", ""), HEADER, "list Z * list Z", "fun c => zlist_eqb (fst c) (snd c)", lits, chunk=200)
-        if errs or bad:
+        if C.spec_problem(r, errs, bad):
             print(f"MACHINERY-ERROR: exception-table spec disagrees with CPython {v}:", errs[:1], [(ents[b], res[b]) for b in bad[:2]])
             raise SystemExit(2)
         total += len(lits)
@@ -91,7 +91,7 @@ def validate_spec(r):
             lits.append(f"(encode_entries {el} ++ obs_triples (sem_lines {merged} {C.zlit(f)} {el}) ++ obs_positions (sem_positions {C.zlit(f)} {el}), "
                         f"{C.zlist(c['tab'] + o['lines'] + o['positions'])})")
         bad, errs = C.coq_cases(r.wd, "specl" + v.replace(".", ""), HEADER, "list Z * list Z", "fun c => zlist_eqb (fst c) (snd c)", lits, chunk=200)
-        if errs or bad:
+        if C.spec_problem(r, errs, bad):
             print(f"MACHINERY-ERROR: location-table spec disagrees with CPython {v}:", errs[:1], [(ents[b], res[b]) for b in bad[:2]])
             raise SystemExit(2)
         total += len(lits)
